@@ -594,6 +594,7 @@ class ModelFittingDataTree(ProblemSingleObjective):
 
                 start = a
                 stop = a + b
-                new_processor.set(key=var.key, value=parameter[start:stop])
+                # Copy the slice, a view would be shared by all processors
+                new_processor.set(key=var.key, value=parameter[start:stop].copy())
             a += b
         return new_processor
